@@ -82,6 +82,7 @@ func cmdRun(args []string) {
 	fs.IntVar(&cfg.MaxViolations, "maxviol", cfg.MaxViolations, "")
 	fs.BoolVar(&cfg.Debug, "debug", false, "")
 	fs.BoolVar(&cfg.PoolDirty, "pooldirty", false, "")
+	fs.BoolVar(&cfg.PoolReuse, "poolreuse", false, "")
 	fs.BoolVar(&cfg.RunTimers, "timers", false, "")
 	fs.StringVar(&cfg.Solver, "solver", cfg.Solver, "")
 	fs.StringVar(&cfg.RepoDir, "repo", cfg.RepoDir, "")
